@@ -20,7 +20,8 @@ type c14Case struct {
 	MaxLen int    `json:"max_len"`
 }
 
-var c14Pool = []string{"MIT", "ISC", "Zlib", "0BSD", "Apache-2.0", "MPL-2.0", "GPL-2.0-only", "BSD-3-Clause", "LicenseRef-a", "DocumentRef-d:LicenseRef-b"}
+// short ids so that as many recursion steps as possible fit under the length bound
+var c14Pool = []string{"MIT", "ISC", "Zed", "X11", "Vim", "W3C", "TCL", "NTP", "LicenseRef-a", "DocumentRef-d:LicenseRef-b"}
 
 // c14Context describes one linear recursion context: a tree shape with operators and a hole.
 type c14Context struct {
@@ -241,7 +242,7 @@ func init() {
 		ID:       "C14",
 		Title:    "cost is polynomial in input size",
 		Explorer: "E1 exhaustive enumeration of linear recursion families (every context <= k leaves with a hole) unrolled under a length bound, deterministic allocation monitor on the real code",
-		Rule: "family = a recursion context (tree with <= k leaves, any AND/OR labelling, one leaf marked as hole; e1 = a term, e(n+1) = C[e(n)] with fresh leaves round-robin from 8 licence ids + 2 references) or one of 12 scalar families (parenthesis depth, spaces, long ids, rewrite chains, long / overlapping allowed lists, n terms vs n entries); each family is unrolled n = 1,2,3,... (scalar: doubling) while the total argument length stays <= B bytes; " +
+		Rule: "family = a recursion context (tree with <= k leaves, any AND/OR labelling, one leaf marked as hole; e1 = a term, e(n+1) = C[e(n)] with fresh leaves round-robin from 8 licence ids + 2 references) or one of 12 scalar families (parenthesis depth, spaces, long ids, rewrite chains, long / overlapping allowed lists, n terms vs n entries); each family is unrolled n = 1,2,3,... (scalar: doubling) while the total argument length stays <= B bytes (B = 2048 quick, 4096 thorough); " +
 			"state = (family, n), 4 transitions (Satisfies with nothing / everything allowed, ExtractLicenses, ValidateLicenses); oracles: completes, TotalAlloc delta < 1 GiB, < 10 s, and alloc(2n) <= 20*alloc(n) (local degree <= 4); non-trivial = states with n >= 4 of families whose context contains both operators",
 		Assumptions: []string{
 			"TotalAlloc/Mallocs deltas of a single-goroutine call are deterministic; the growth law is evaluated on every doubling inside the bound, its continuation beyond the bound is an extrapolation",
@@ -258,9 +259,9 @@ func init() {
 }
 
 func c14Run(c *Ctx) {
-	k, B := 3, 512
+	k, B := 3, 2048
 	if c.Thorough() {
-		k, B = 4, 1024
+		k, B = 4, 4096
 	}
 	ctxs, names := c14CtxMap(k)
 	fams := append(append([]string{}, names...), c14Scalar...)
